@@ -1,10 +1,16 @@
 #!/bin/sh
-# Offline setup: make sure hypothesis is importable by the interpreter the repository is installed in.
-# Nothing is built: the checks import iOpt from /repo's working tree.
+# Offline setup: make sure hypothesis (every check) and atheris (thorough-tier fuzz:<kind> shards) are importable by
+# the interpreter the repository is installed in.  Nothing is built: the checks import iOpt from /repo's working tree.
 HERE="$(cd "$(dirname "$0")" && pwd)"
 PY="${VERIF_PYTHON:-/venv/bin/python}"
+WH=/opt/veriftools/wheels
 if ! PYTHONPATH="$HERE/.deps" "$PY" -c "import hypothesis" 2>/dev/null; then
-    "$PY" -m pip install --no-index --find-links /opt/veriftools/wheels --target "$HERE/.deps" hypothesis || exit 1
+    "$PY" -m pip install --no-index --find-links $WH --target "$HERE/.deps" hypothesis || exit 1
+fi
+if ! PYTHONPATH="$HERE/.deps" "$PY" -c "import atheris" 2>/dev/null; then
+    # only the thorough tier needs it; a missing wheel must not break the quick tier
+    "$PY" -m pip install --no-index --find-links $WH --target "$HERE/.deps" atheris >/dev/null 2>&1 \
+        || echo "setup: atheris not installable (thorough-tier fuzz shards will report a harness error)"
 fi
 PYTHONPATH="$HERE/.deps" "$PY" -c "import hypothesis, numpy, scipy, depq; print('setup ok: hypothesis', hypothesis.__version__)" || exit 1
 chmod +x "$HERE/check" 2>/dev/null
